@@ -113,7 +113,7 @@ def Prog.run (p : Prog) : ActionF := fun bs =>
   | .error (.reject, _, em) => { exe := some (none, em), err := none }
   | .error (x, b, em) =>
     let msg := match x with
-      | .fail m => m | .timeout => timeoutMsg | .badEmit k => badEmitMsg ++ k | .reject => ""
+      | .fail m => m | .timeout => timeoutMsg | .badEmit k => badEmitMsg ++ k ++ (if p.native then ":native" else "") | .reject => ""
     if p.native && p.partialOnFail then { exe := some (some b, em), err := some msg }
     else { exe := none, err := some msg }
   | .ok (b, em) =>
